@@ -1,6 +1,8 @@
 package props
 
 import (
+	"fmt"
+
 	"verif/ast"
 	"verif/core"
 	"verif/gen"
@@ -106,6 +108,28 @@ func dupParamCase(prop string, ctx *core.Ctx, idx int) core.Result {
 	for i := range args {
 		args[i] = il(int64(10 + i))
 	}
+	if r.Chance(1, 6) {
+		// a parameter, local or captured variable spelled like a built-in function and called: the variable is what runs
+		bn := []string{"toa", "aton", "elems", "indices", "read", "write"}[r.Intn(6)]
+		mine := ast.FuncLit{Params: []string{"v"}, Body: ast.ArrayLit{Elems: []ast.Node{nm("v"), il(int64(r.Intn(9)))}}}
+		ps, args = []string{bn, "x"}, []ast.Node{mine, il(int64(r.Intn(50)))}
+		call := ast.Call{Fn: bn, Args: []ast.Node{nm("x")}}
+		switch r.Intn(5) {
+		case 0:
+			body = call
+		case 1:
+			body = ast.Block{Stmts: []ast.Node{ast.Assign{Name: "zl", Value: call}, ast.ArrayLit{Elems: []ast.Node{nm("zl"), nm("x")}}}}
+		case 2:
+			body = ast.FuncLit{Body: call}
+		case 3: // a local of that name
+			ps, args = []string{"x"}, args[1:]
+			body = ast.Block{Stmts: []ast.Node{ast.Assign{Name: bn, Value: mine}, ast.Assign{Name: "zg", Value: ast.FuncLit{Body: call}}, ast.ArrayLit{Elems: []ast.Node{call, icall("zg")}}}}
+		default: // a loop variable of that name
+			ps, args = []string{"x"}, args[1:]
+			body = ast.Block{Stmts: []ast.Node{ast.Assign{Name: "zs", Value: ast.ArrayLit{}}, ast.For{Vars: []string{bn}, Iters: []ast.Node{icall("elems", ast.ArrayLit{Elems: []ast.Node{mine, mine}})}, Body: ast.Assign{Name: "zs", Value: ast.Binary{Op: "+", L: nm("zs"), R: call}}}, nm("zs")}}
+		}
+		n = len(ps)
+	}
 	stmts := []ast.Node{ast.Assign{Name: "zf", Value: ast.FuncLit{Params: ps, Body: body}}, ast.Assign{Name: "zr", Value: ast.Call{Fn: "zf", Args: args}}}
 	if _, ok := body.(ast.FuncLit); ok {
 		stmts = append(stmts, icall("zdeep", il(30)), ast.Assign{Name: "zq", Value: icall("zr")})
@@ -125,6 +149,80 @@ func dupParamCase(prop string, ctx *core.Ctx, idx int) core.Result {
 		res.Add("duplicate_parameter_lists", 1)
 	}
 	res.Nontrivial = d.Verdict == core.Held
+	return res
+}
+
+// c04GenClosures: generators that are closures and run loops of their own whose iterator expressions read
+// captured variables, consumed by loops in functions at call depth 0..4 whose callers all hold captured
+// variables of their own (in the same slots, with other values): what a generator computes must not depend on
+// how deep, and below whom, its consumer runs.
+func c04GenClosures(ctx *core.Ctx, idx int) core.Result {
+	r := core.CaseRng(ctx.Seed, "C04/genclosures", idx)
+	bin := func(op string, l, rr ast.Node) ast.Node { return ast.Binary{Op: op, L: l, R: rr} }
+	// the definer: some locals in front (so that the captured slot varies), then the captured variables
+	var body []ast.Node
+	for k := r.Range(0, 3); k > 0; k-- {
+		body = append(body, ast.Assign{Name: "zp"+string(rune('a'+k)), Value: il(int64(1000 + r.Intn(99)))})
+	}
+	body = append(body, ast.Assign{Name: "lim", Value: bin("+", nm("n"), il(int64(r.Range(0, 2))))},
+		ast.Assign{Name: "m", Value: il(int64(r.Range(2, 5)))},
+		ast.Assign{Name: "xs", Value: ast.ArrayLit{Elems: []ast.Node{il(int64(r.Intn(9))), il(int64(10 + r.Intn(9))), il(int64(20 + r.Intn(9)))}}},
+		ast.Assign{Name: "it", Value: ast.FuncLit{Body: icall("fromto", il(1), bin("+", nm("lim"), il(1)))}})
+	var g ast.Node
+	gk := r.Intn(5)
+	switch gk {
+	case 0:
+		g = ast.FuncLit{Body: ast.For{Vars: []string{"i"}, Iters: []ast.Node{icall("fromto", il(0), nm("lim"))}, Body: ast.Yield{X: bin("*", nm("i"), nm("m"))}}}
+	case 1:
+		g = ast.FuncLit{Body: ast.For{Vars: []string{"e"}, Iters: []ast.Node{icall("it")}, Body: ast.Yield{X: bin("+", nm("e"), nm("m"))}}}
+	case 2:
+		g = ast.FuncLit{Body: ast.For{Vars: []string{"i", "e"}, Iters: []ast.Node{icall("fromto", il(0), nm("lim")), icall("elems", nm("xs"))}, Body: ast.Yield{X: bin("+", nm("i"), nm("e"))}}}
+	case 3: // a generator over a generator, both closures of the same call
+		body = append(body, ast.Assign{Name: "gz", Value: ast.FuncLit{Body: ast.For{Vars: []string{"i"}, Iters: []ast.Node{icall("fromto", il(0), nm("lim"))}, Body: ast.Yield{X: bin("+", nm("i"), il(1))}}}})
+		g = ast.FuncLit{Body: ast.For{Vars: []string{"v"}, Iters: []ast.Node{icall("gz")}, Body: ast.Yield{X: bin("*", nm("v"), nm("m"))}}}
+	default: // the loop is not the generator's first statement
+		g = ast.FuncLit{Body: ast.Block{Stmts: []ast.Node{ast.Yield{X: nm("m")}, ast.For{Vars: []string{"e"}, Iters: []ast.Node{icall("elems", ast.Slice{X: nm("xs"), I: il(0), J: bin("%", nm("lim"), il(4))})}, Body: ast.Yield{X: nm("e")}}, ast.Yield{X: nm("lim")}}}}
+	}
+	body = append(body, ast.Assign{Name: "g", Value: g}, nm("g"))
+	stmts := []ast.Node{ast.Assign{Name: "zmk", Value: ast.FuncLit{Params: []string{"n"}, Body: ast.Block{Stmts: body}}}}
+	// consumers: zla runs the loop; zlb.. call the one below; each holds captured variables of its own
+	stmts = append(stmts, ast.Assign{Name: "zla", Value: ast.FuncLit{Params: []string{"gg"}, Body: ast.Block{Stmts: []ast.Node{
+		ast.Assign{Name: "q", Value: il(int64(100 + r.Intn(50)))}, ast.Assign{Name: "kq", Value: ast.FuncLit{Body: nm("q")}},
+		ast.Assign{Name: "s", Value: ast.ArrayLit{}},
+		ast.For{Vars: []string{"v"}, Iters: []ast.Node{icall("gg")}, Body: ast.Assign{Name: "s", Value: bin("+", nm("s"), ast.ArrayLit{Elems: []ast.Node{nm("v")}})}},
+		bin("+", nm("s"), ast.ArrayLit{Elems: []ast.Node{bin("-", icall("kq"), nm("q"))}})}}}})
+	depth := r.Range(1, 4)
+	for d := 1; d <= depth; d++ {
+		var pads []ast.Node
+		for k := r.Range(0, 2); k > 0; k-- {
+			pads = append(pads, ast.Assign{Name: "zw"+string(rune('a'+k)), Value: il(int64(7 * d * k))})
+		}
+		fb := append(pads, ast.Assign{Name: "w", Value: il(int64(7*d + r.Intn(5)))}, ast.Assign{Name: "kw", Value: ast.FuncLit{Body: nm("w")}},
+			ast.Assign{Name: "res", Value: icall("zl"+string(rune('a'+d-1)), nm("gg"))},
+			bin("+", nm("res"), ast.ArrayLit{Elems: []ast.Node{bin("-", icall("kw"), nm("w"))}}))
+		stmts = append(stmts, ast.Assign{Name: "zl"+string(rune('a'+d)), Value: ast.FuncLit{Params: []string{"gg"}, Body: ast.Block{Stmts: fb}}})
+	}
+	stmts = append(stmts, ast.Assign{Name: "zga", Value: icall("zmk", il(int64(r.Range(1, 4))))}, ast.Assign{Name: "zgb", Value: icall("zmk", il(int64(r.Range(0, 5))))})
+	at := func() ast.Node {
+		return icall("zl"+string(rune('a'+r.Intn(depth+1))), nm([]string{"zga", "zgb"}[r.Intn(2)]))
+	}
+	for k := r.Range(2, 5); k > 0; k-- {
+		switch r.Intn(4) {
+		case 0:
+			stmts = append(stmts, ast.ArrayLit{Elems: []ast.Node{at(), at()}})
+		case 1: // from inside a loop body (the consumer's callers run under an iterator context of the statement)
+			stmts = append(stmts, ast.Block{Stmts: []ast.Node{ast.Assign{Name: "zacc", Value: ast.ArrayLit{}}, ast.For{Vars: []string{"zt"}, Iters: []ast.Node{icall("fromto", il(0), il(2))}, Body: ast.Assign{Name: "zacc", Value: bin("+", nm("zacc"), at())}}, nm("zacc")}})
+		case 2: // consumed directly at top level
+			stmts = append(stmts, ast.Block{Stmts: []ast.Node{ast.Assign{Name: "zacc", Value: ast.ArrayLit{}}, ast.For{Vars: []string{"zt"}, Iters: []ast.Node{icall("zga")}, Body: ast.Assign{Name: "zacc", Value: bin("+", nm("zacc"), ast.ArrayLit{Elems: []ast.Node{nm("zt")}})}}, nm("zacc")}})
+		default:
+			stmts = append(stmts, ast.Assign{Name: "zo"+string(rune('a'+k)), Value: at()})
+		}
+	}
+	opts := diffOpts{DoOut: r.Bool(), Stress: stressModes[r.Intn(len(stressModes))], Residue: true, Globals: true}
+	d := runDiff(stmts, opts)
+	res := diffCase("C04", stmts, opts, d, map[string]any{"family": "genclosures", "generator_kind": gk, "caller_depth": depth})
+	res.Tag(fmt.Sprintf("genclosure:%d", gk))
+	res.Nontrivial = d.Verdict == core.Held && d.Stats.Yields >= 3 && d.Stats.Calls >= 4
 	return res
 }
 
@@ -163,7 +261,7 @@ func c04Typed(ctx *core.Ctx, idx int) core.Result {
 func init() {
 	register(&core.Property{
 		ID:          "C04",
-		Rule:        "(1) name-pressure sessions: 2..5 names used at once as global, parameter, local initialised from the outer variable (the README's a = a+1 pattern), fresh local, for-variable and captured variable across functions nested up to 3 levels (the third level must not see the first level's variables); every function writes all visible names on entry/middle, snapshots them before and after every call it makes (DIFF marker if a call changed them), updates a captured variable and calls the closure again (sharing until return), and lets closures escape directly, inside an array or inside an array of arrays; escaped closures are dug out and called after deep recursion overwrote the dead frames; (2) typed sessions with local functions, higher-order parameters and returned closures; (3) hof: closure plumbing (gen/hof.go) — sibling closures of one call that hand out or call each other, closures routed through other functions (returned unchanged, picked, wrapped in a capturing closure, yielded by a generator and returned out of the consuming loop, [f][0]) while the defining call is live and its variables change, nested definers, closures yielded by generators whose loop is left early, all called again after the defining call returned and other calls, deep recursion and loops reused the stack and recycled the iterator contexts (half of the sessions are one top-level statement, since contexts are recycled per statement); all with the complete global frame compared with the reference after every statement, REPL/script mode, plain/tight/pregrown allocation. non-trivial = >= 2 functions and >= 2 calls; distinct by session and mode.",
+		Rule:        "(1) name-pressure sessions: 2..5 names used at once as global, parameter, local initialised from the outer variable (the README's a = a+1 pattern), fresh local, for-variable and captured variable across functions nested up to 3 levels (the third level must not see the first level's variables); every function writes all visible names on entry/middle, snapshots them before and after every call it makes (DIFF marker if a call changed them), updates a captured variable and calls the closure again (sharing until return), and lets closures escape directly, inside an array or inside an array of arrays; escaped closures are dug out and called after deep recursion overwrote the dead frames; (2) typed sessions with local functions, higher-order parameters and returned closures; (3) hof: closure plumbing (gen/hof.go) — sibling closures of one call that hand out or call each other, closures routed through other functions (returned unchanged, picked, wrapped in a capturing closure, yielded by a generator and returned out of the consuming loop, [f][0]) while the defining call is live and its variables change, nested definers, closures yielded by generators whose loop is left early, all called again after the defining call returned and other calls, deep recursion and loops reused the stack and recycled the iterator contexts (half of the sessions are one top-level statement, since contexts are recycled per statement); (4) params: repeated parameter names, and parameters/locals/loop variables spelled like built-in functions and called; (5) genclosures: closure generators whose own loops read captured variables in their iterator expressions, consumed at call depth 0..4 under callers that hold captured variables of their own; all with the complete global frame compared with the reference after every statement, REPL/script mode, plain/tight/pregrown allocation. non-trivial = >= 2 functions and >= 2 calls; distinct by session and mode.",
 		Assumptions: []string{"names are declared (parameter or first statements) before any loop of the function body, so static and dynamic lookup order cannot differ (DESIGN.md 4.3 rule 1)"},
 		Families: []core.Family{
 			{Name: "corpus", Count: func(string) int { return len(corpusSessions()) * 2 * len(stressModes) }, Run: func(_ *core.Ctx, idx int) core.Result { return corpusCase("C04", idx, true) }},
@@ -171,6 +269,7 @@ func init() {
 			{Name: "typed", Count: countFn(5000, 200000), Run: c04Typed},
 			{Name: "hof", Count: countFn(5000, 300000), Run: c04Hof},
 			{Name: "params", Count: countFn(1200, 60000), Run: c04Params},
+			{Name: "genclosures", Count: countFn(1500, 80000), Run: c04GenClosures},
 		},
 		Floors: []core.Floor{{Key: "statements_compared", Quick: 30000, Thor: 3000000}, {Key: "functions_defined", Quick: 8000, Thor: 800000}, {Key: "escaped_closures_called", Quick: 10000, Thor: 1000000}, {Key: "closure_routes", Quick: 10000, Thor: 600000}, {Key: "tag:scope:", Quick: 2, Thor: 2}, {Key: "nontrivial", Quick: 3000, Thor: 300000}},
 	})
